@@ -105,6 +105,7 @@ func init() {
 		client := &telegram.Client{MTProto: m}
 		cv := reflect.ValueOf(client)
 		rep := NewReport()
+		vecSeen := 0
 		must(readNDJSON(*casesPath, func(raw json.RawMessage) error {
 			var c methodCase
 			if err := json.Unmarshal(raw, &c); err != nil {
@@ -151,6 +152,16 @@ func init() {
 			mu.Lock()
 			gotBody = nil
 			answer = render(c.ResImg)
+			// a server packs what it finds big enough: every other vector answer and every fifth other answer travels gzip_packed
+			nvec := 0
+			if c.ResKind == "vec" {
+				vecSeen++
+				nvec = vecSeen
+			}
+			if (c.ResKind == "vec" && nvec%2 == 0) || (c.ResKind != "vec" && rep.Evaluations%5 == 0) {
+				answer = refsrv.Gzip(answer)
+				info["answer"] = "gzip_packed"
+			}
 			// every method with a vector result, and every seventh other one, meets a salt rotation on its first attempt
 			rejectOnce = c.ResKind == "vec" || rep.Evaluations%7 == 0
 			mu.Unlock()
